@@ -470,6 +470,30 @@ def _typeahead_table(prog, chk):
             raise AnalysisBroken('abstract evaluation of the declaration look-ahead: %s' % ex)
         if bool(got) != want:
             bad.append('`%s` is classified as %s' % (what, 'a declaration' if got else 'an expression'))
+    # systematic family: a type argument list holds type tokens only.  For every token kind K of the lexer that cannot occur in a
+    # type (everything but names, dots, commas, angle and square brackets, integer literals and the primitive-type keywords), the
+    # text `a < b K c > d` — at a statement start, and after the `(` of a parenthesised expression, where the same look-ahead decides
+    # "cast" — is not a declaration / a cast:  both((i < n), (j > k))  used to be rejected with "Expected '>' after type arguments".
+    TYPE_TOKENS = {'Identifier', 'Dot', 'Comma', 'Less', 'Greater', 'LBracket', 'RBracket', 'IntegerLiteral', 'Void', 'Int', 'Float', 'Long', 'Char', 'String',
+                   'Bit', 'Qubit', 'Boolean'}
+    nfam = 0
+    for K in sorted(known or []):
+        if K in TYPE_TOKENS or K == 'Eof':
+            continue
+        names = ['Identifier', 'Less', 'Identifier', K, 'Identifier', 'Greater', 'Identifier', 'Semicolon']
+        nfam += 1
+        n += 1
+        this = Obj(m_tokens=[Obj(type=TT + t, value='', line=1, column=1) for t in names] + [Obj(type=TT + 'Eof', value='', line=1, column=1)], m_current=0)
+        try:
+            got = Interp(prog, {}, max_steps=20000).call_fn_env(ta, [], {'this': this})
+        except OutOfRange as ex:
+            bad.append('a < b %s c > d: %s' % (K, ex))
+            continue
+        except Unsupported as ex:
+            raise AnalysisBroken('abstract evaluation of the declaration look-ahead: %s' % ex)
+        if got:
+            bad.append('`a < b <%s> c > d` is read as `Type<…> name`' % K)
+    chk.count('non-type token kinds tried inside `<…>`', nfam, 40)
     chk.extra['typeahead_patterns'] = n
     chk.ob('R14.6', ta, ta.ln, not bad,
            'the look-ahead that decides "declaration or expression statement" agrees with the grammar on %d statement-start token patterns; misclassified: %s' % (n, bad[:4]),
